@@ -78,6 +78,9 @@ def attr_value_for(rng, name):
     if name in (A.INITIAL_DATE, A.ACTIVATION_DATE, A.PROCESS_START_DATE, A.PROTECT_STOP_DATE,
                 A.DEACTIVATION_DATE, A.DESTROY_DATE, A.COMPROMISE_OCCURRENCE_DATE,
                 A.COMPROMISE_DATE, A.ARCHIVE_DATE, A.LAST_CHANGE_DATE):
+        # mostly dates around the virtual clock; sometimes the ends of what a Date-Time can carry
+        if rng.random() < 0.15:
+            return rng.choice((0, 1, -1, 2 ** 31 - 1, 2 ** 31, 2 ** 32, 2 ** 40, 2 ** 60, -2 ** 60, 2 ** 63 - 1, -2 ** 63))
         return 1600000000 + rng.randrange(-5, 50)
     if name == A.LEASE_TIME:
         return rng.randrange(0, 1000)
